@@ -150,6 +150,15 @@ def run_batch(ctx, exe, lines, tag, threads=2, sched="lfq", nranks=1, timeout=60
                 kinds = [ev.get("e") for pr in ex.per_rank for ev in pr if ev.get("e") in ("Crash", "Timeout")]
                 ex.failed = kinds[0] if kinds else ("Timeout" if rc == "timeout" else "Crash")
                 ex.cfg = dict(cfg, rc=str(rc), stderr=se[-400:])
+                if not tag.endswith("_confirm"):
+                    # DESIGN 1.4: a crash / hang of the real code is reported only when a rerun of the same program in
+                    # the same configuration repeats it; an unrepeatable one is counted and shown, never a verdict
+                    again = run_batch(ctx, exe, [lines[skip + k]], tag + "_a%d_confirm" % attempt, threads=threads, sched=sched,
+                                      nranks=nranks, timeout=timeout, max_restarts=0, env=env)
+                    if again and again[0].failed is None:
+                        ctx.extra["unconfirmed_failures"] = ctx.extra.get("unconfirmed_failures", 0) + 1
+                        ctx.sample({"unconfirmed_failure": {"program": lines[skip + k], "config": ex.cfg, "kind": ex.failed}}, limit=6)
+                        ex = again[0]
             out.append(ex)
         if rc == 0:
             break
